@@ -155,6 +155,13 @@ def check_output_discipline(ctx, R3, R4, R5):
     fi, rows = request_rows(ctx)
     seen = set()
     n_loop = 0
+    # a key set built by an explicit loop has a zero-iteration sibling (no caller headers: the empty set, which is right);
+    # it is accepted only next to the loop-built form, so that a constant empty set is still refused
+    loop_built = any(key_set_ok(x.hk) and "rep(" in (x.hk or "") for x in rows)
+    EMPTY_SETS = ("frozenset(set())", "frozenset()", "set()", "frozenset(list())", "frozenset(tuple())")
+
+    def hk_ok(hk):
+        return key_set_ok(hk) or (loop_built and hk in EMPTY_SETS)
     for x in rows:
         names = x.names()
         w = x.r.witness()
@@ -173,7 +180,8 @@ def check_output_discipline(ctx, R3, R4, R5):
                    "" if ok_shape else "bytes are written before the header block is complete (or two request lines / header blocks are produced)", witness=w, node=fi.node)
         # R3: the caller's headers
         loop_ph = [(a, loop) for a, loop in x.putheaders() if loop]
-        iterated = any(isinstance(k, tuple) and k and k[0] == "iterated" and "p:headers" in str(k[1]) for k in x.r.st.ts)
+        # (the pair-wise iteration; a loop over the keys alone, e.g. to collect the lower-cased names, writes nothing)
+        iterated = any(isinstance(k, tuple) and k and k[0] == "iterated" and str(k[1]) in (T("items", "p:headers"), T("p:headers.items")) for k in x.r.st.ts)
         for a, loop in loop_ph:
             n_loop += 1
             src = loop[0] if loop else ""
@@ -193,7 +201,7 @@ def check_output_discipline(ctx, R3, R4, R5):
             kw = {k_: b_[k_] for k_ in ("skip_host", "skip_accept_encoding") if k_ in b_}
             want = {"skip_host": x.has.get("host"), "skip_accept_encoding": x.has.get("accept-encoding")}
             got = {k: {"True": True, "False": False}.get(v) for k, v in kw.items()}
-            ok = pos[:2] == ["p:method", "p:url"] and all(want[k] is not None and got.get(k) == want[k] for k in want) and key_set_ok(x.hk)
+            ok = pos[:2] == ["p:method", "p:url"] and all(want[k] is not None and got.get(k) == want[k] for k in want) and hk_ok(x.hk)
             if _once(seen, ("skip", tuple(a), tuple(sorted(want.items())), x.hk)):
                 ctx.ob(R5, fi.qual, f"putrequest({', '.join(a)}) with caller host={want['skip_host']} accept-encoding={want['skip_accept_encoding']}", ok,
                        "" if ok else "Host / Accept-Encoding must be suppressed exactly when the caller supplied them (names compared lower-cased), on one request line for (method, url)", witness=w, node=fi.node)
